@@ -231,7 +231,8 @@ def run_tier(args):
         'violations': n_new,
     }
     if getattr(mod, 'EXHAUSTIVE', None) is not None:
-        evidence['coverage']['exhaustive'] = bool(mod.EXHAUSTIVE)
+        ex = mod.EXHAUSTIVE
+        evidence['coverage']['exhaustive'] = bool(ex.get(args.tier) if isinstance(ex, dict) else ex) and status == 0
     os.makedirs(os.path.join(core.HOME, 'evidence'), exist_ok=True)
     with open(os.path.join(core.HOME, 'evidence', args.prop + '.json'), 'w') as f:
         json.dump(evidence, f, indent=1, sort_keys=False)
